@@ -116,7 +116,9 @@ inline void run_kernel(const char* kernel, MA&& mka, MB&& mkb, F&& angle_ab, G&&
     T t1 = eval_pair<T>(kernel, a, b, family, angle_ab, nontrivial);
     T t2 = angle_ba(b, a);
     vf::stat("symmetry_checks");
-    if (!vf::same_bits(t1, t2) && !(std::isnan(t1) || std::isnan(t2)))
+    // symmetric in its arguments: up to the conditioning tolerance of the statement (the two argument orders may legitimately be
+    // two different kernels whose cosines differ by a rounding)
+    if (!(std::fabs((double)(t1 - t2)) <= Tol<T>::v) && !(std::isnan(t1) || std::isnan(t2)))
       vf::viol(std::string("angle|") + kernel + "|" + vf::TName<T>::value + "|asymmetric",
                std::string("{\"a\":") + desc(a) + ",\"b\":" + desc(b) + ",\"ab\":" + vf::jstr(vf::hex(t1)) + ",\"ba\":" + vf::jstr(vf::hex(t2)) + "}");
     return t1;
